@@ -211,6 +211,9 @@ type Spec struct {
 	// harness type; with JWT access tokens (which need a JWTSessionContainer) they are fosite's oauth2.JWTSession,
 	// which is no OpenID Connect session: such a world serves plain OAuth 2.0 requests only (see World.NoOIDC).
 	FositeSession bool
+	// PlainSession (with FositeSession, without JWT access tokens): fosite.DefaultSession, the session type of a plain
+	// OAuth 2.0 deployment; no OpenID Connect requests in such a world either.
+	PlainSession bool
 	// LegacyRevocationHandler puts a second revocation handler, over an empty store of its own, in front of the real
 	// one (an operator migrating between stores): it knows none of the tokens and answers accordingly.
 	LegacyRevocationHandler bool
@@ -383,6 +386,9 @@ func NewWorld(sp Spec) *World {
 // Sess returns a fresh session for the integrator to hand to fosite: the harness type, or fosite's own
 // openid.DefaultSession when the world was built with FositeSession.
 func (w *World) Sess(subject string) fosite.Session {
+	if w.NoOIDC() && !w.Spec.JWTAccess {
+		return &fosite.DefaultSession{Subject: subject}
+	}
 	if w.NoOIDC() {
 		return &oauth2.JWTSession{
 			JWTClaims: &jwt.JWTClaims{Subject: subject, Extra: map[string]interface{}{}},
@@ -401,8 +407,11 @@ func (w *World) Sess(subject string) fosite.Session {
 	return NewSess(subject)
 }
 
-// NoOIDC reports whether the sessions of this world cannot carry ID-token claims (fosite's oauth2.JWTSession).
-func (w *World) NoOIDC() bool { return w.Spec.FositeSession && w.Spec.JWTAccess }
+// NoOIDC reports whether the sessions of this world cannot carry ID-token claims (fosite's oauth2.JWTSession or
+// fosite.DefaultSession).
+func (w *World) NoOIDC() bool {
+	return w.Spec.FositeSession && (w.Spec.JWTAccess || w.Spec.PlainSession)
+}
 
 // ctx is the context of the next request: BaseCtx() when the test installed one (a request whose caller has gone away,
 // a per-request deadline), the background context otherwise.
